@@ -477,10 +477,13 @@ bool IP::matches_response(const uint8_t* ptr, uint32_t total_sz) const {
         return false;
     }
     const ip_header* ip_ptr = (const ip_header*)ptr;
+    // The response carries its own options: use its header length, not ours
+    const uint32_t response_hl = ip_ptr->ihl * sizeof(uint32_t);
+    const uint32_t sz = (response_hl < total_sz) ? response_hl : total_sz;
     // dest unreachable?
     if (ip_ptr->protocol == Constants::IP::PROTO_ICMP) {
-        const uint8_t* pkt_ptr = ptr + sizeof(ip_header);
-        uint32_t pkt_sz = total_sz - sizeof(ip_header);
+        const uint8_t* pkt_ptr = ptr + sz;
+        uint32_t pkt_sz = total_sz - sz;
         // It's an ICMP dest unreachable
         if (pkt_sz > 4 && pkt_ptr[0] == 3) {
             pkt_ptr += 4;
@@ -497,7 +500,6 @@ bool IP::matches_response(const uint8_t* ptr, uint32_t total_sz) const {
         (header_.daddr == ip_ptr->saddr || dst_addr().is_broadcast())) ||
         (dst_addr().is_broadcast() && header_.saddr == 0)) {
 
-        uint32_t sz = (header_size() < total_sz) ? header_size() : total_sz;
         return inner_pdu() ? inner_pdu()->matches_response(ptr + sz, total_sz - sz) : true;
     }
     return false;
